@@ -38,13 +38,25 @@ Example value_json_current_reads_witnesses :
      VBox [2%nat] [VChar [3%nat] S_NAN; VCplx [] [(F_NEG_INF, 18444492273895866368)]]] = true.
 Proof. vm_compute. reflexivity. Qed.
 
-(** STILL OPEN in the current representation (labels / map keys are outside [value]): a map with
-    character keys and an empty box array of rank 2 reads back as a (malformed) character array:
-    Char's Full(Shape, String, ArrayMeta) accepts [shape, "keys", {..}] and ignores the unknown
-    field of the metadata *)
-Theorem value_json_refuted_map :
-  exists m j m', mto_json true m = Some j /\ of_json true j = Some m' /\ mval_same m' m = false.
+(** a map with character keys over an empty box array of rank 2 read back as a (malformed)
+    character array: Char's Full(Shape, String, ArrayMeta) accepted [shape, "keys", {"empty_boxes":[]}]
+    because unknown fields of the metadata object were ignored (repaired by /repo 71ff4d9) *)
+Theorem value_json_refuted_map_pre :
+  exists m j m', mto_json false m = Some j /\ of_json false j = Some m' /\ mval_same m' m = false.
 Proof.
   exists (MV (VBox [1%nat; 0%nat] []) None (Some (VChar [1%nat] [97]))). eexists. eexists.
   split; [vm_compute; reflexivity|]. split; [vm_compute; reflexivity | reflexivity].
 Qed.
+
+(** now the metadata object may only have known fields, and maps (top-level keys) come back *)
+Example value_json_current_reads_maps :
+  forallb (fun m => match mto_json true m with
+                    | Some j => opt_eqb mval_same (of_json true j) (Some m)
+                    | None => false end)
+    [MV (VBox [1%nat; 0%nat] []) None (Some (VChar [1%nat] [97]));
+     MV (VBox [0%nat] []) None (Some (VChar [0%nat] []));
+     MV (VNum [2%nat] [4607182418800017408; F_NAN_BITS]) None (Some (VChar [2%nat] [97; 98]));
+     MV (VChar [2%nat; 1%nat] [120; 121]) None (Some (VNum [2%nat] [4607182418800017408; 4611686018427387904]));
+     MV (VByte [2%nat] [3; 4]) (Some [108]) None;
+     MV (VChar [3%nat] S_NAN) (Some S_W) None] = true.
+Proof. vm_compute. reflexivity. Qed.
